@@ -61,11 +61,89 @@ def lemmas(tier):
 
 # ---------------------------------------------------------------- repr: AST -> z3 string terms
 def fstring_term(cls, env):
+    """the body of cls.__repr__ as a z3 string term: `return <f-string>` possibly guarded by `if <comparison>:` chains"""
     fn = ast.parse(textwrap.dedent(inspect.getsource(cls.__repr__))).body[0]
     body = [s for s in fn.body if not (isinstance(s, ast.Expr) and isinstance(s.value, ast.Constant))]
-    if len(body) != 1 or not isinstance(body[0], ast.Return):
-        raise ValueError("__repr__ of %s is not a single return" % cls.__name__)
-    return _term(body[0].value, env)
+    return _block(body, env)
+
+
+def _block(stmts, env):
+    """list of (path condition, string term): one entry per control-flow path (queried separately - an ITE over
+    str.from_int terms makes z3 answer unknown)"""
+    if not stmts:
+        raise ValueError("__repr__ can fall off its end")
+    s, rest = stmts[0], stmts[1:]
+    if isinstance(s, ast.Return):
+        return [(z3.BoolVal(True), _term(s.value, env))]
+    if isinstance(s, ast.If):
+        c = _cond(s.test, env)
+        out = [(z3.And(c, g), t) for g, t in _block(list(s.body) + rest, env)]
+        out += [(z3.And(z3.Not(c), g), t) for g, t in _block(list(s.orelse) + rest, env)]
+        return out
+    raise ValueError("unsupported statement in __repr__: %s" % ast.dump(s)[:80])
+
+
+def _cond(e, env):
+    if isinstance(e, ast.BoolOp):
+        parts = [_cond(v, env) for v in e.values]
+        return z3.And(*parts) if isinstance(e.op, ast.And) else z3.Or(*parts)
+    if isinstance(e, ast.UnaryOp) and isinstance(e.op, ast.Not):
+        return z3.Not(_cond(e.operand, env))
+    if isinstance(e, ast.Constant) and isinstance(e.value, bool):
+        return z3.BoolVal(e.value)
+    if isinstance(e, ast.Compare) and len(e.ops) == 1:
+        l, r = _operand(e.left, env), _operand(e.comparators[0], env)
+        op = e.ops[0]
+        if isinstance(op, (ast.Eq, ast.NotEq, ast.Is, ast.IsNot)):
+            eq = _equal(l, r)
+            return eq if isinstance(op, (ast.Eq, ast.Is)) else z3.Not(eq)
+        if isinstance(l, tuple) or isinstance(r, tuple):
+            # Position order is the tuple order of (line, character) - established by the operator lemmas of this check
+            la, ra = _as_pair(l), _as_pair(r)
+            lt = z3.Or(la[0] < ra[0], z3.And(la[0] == ra[0], la[1] < ra[1]))
+            gt = z3.Or(la[0] > ra[0], z3.And(la[0] == ra[0], la[1] > ra[1]))
+            return {ast.Lt: lt, ast.Gt: gt, ast.LtE: z3.Not(gt), ast.GtE: z3.Not(lt)}[type(op)]
+        return {ast.Lt: l < r, ast.Gt: l > r, ast.LtE: l <= r, ast.GtE: l >= r}[type(op)]
+    raise ValueError("unsupported condition in __repr__: %s" % ast.dump(e)[:100])
+
+
+def _as_pair(x):
+    if isinstance(x, tuple) and set(x[2]) == {"line", "character"}:
+        return (x[2]["line"], x[2]["character"])
+    raise ValueError("ordering of a non-Position object")
+
+
+def _equal(l, r):
+    if isinstance(l, tuple) and isinstance(r, tuple):
+        if l[1] is not r[1]:
+            return z3.BoolVal(False)
+        return z3.And(*[_equal(l[2][k], r[2][k]) for k in l[2]])
+    if isinstance(l, tuple) or isinstance(r, tuple):
+        return z3.BoolVal(False)
+    if l.sort() != r.sort():
+        return z3.BoolVal(False)
+    return l == r
+
+
+def _operand(e, env):
+    if isinstance(e, ast.Constant) and isinstance(e.value, bool):
+        raise ValueError("bool operand")
+    if isinstance(e, ast.Constant) and isinstance(e.value, int):
+        return z3.IntVal(e.value)
+    if isinstance(e, ast.Constant) and isinstance(e.value, str):
+        return z3.StringVal(e.value)
+    if isinstance(e, ast.Attribute):
+        base = e.value
+        if isinstance(base, ast.Name) and base.id == "self":
+            return env[e.attr]
+        inner = _operand(base, env)
+        if isinstance(inner, tuple):
+            return inner[2][e.attr]
+    if isinstance(e, ast.Call) and isinstance(e.func, ast.Name) and e.func.id == "len" and len(e.args) == 1:
+        x = _operand(e.args[0], env)
+        if not isinstance(x, tuple) and x.sort() == z3.StringSort():
+            return z3.Length(x)
+    raise ValueError("unsupported operand in __repr__: %s" % ast.dump(e)[:100])
 
 
 def _term(e, env):
@@ -79,7 +157,7 @@ def _term(e, env):
             raise ValueError("format spec not supported")
         x = _val(e.value, env)
         if isinstance(x, tuple):  # nested object: {self.start!r} or {self.start} both use its __repr__ (attrs.define: no __str__)
-            return fstring_term(x[1], x[2])
+            return _single(fstring_term(x[1], x[2]))
         if x.sort() == z3.IntSort():
             if e.conversion not in (-1, 114, 115):
                 raise ValueError("conversion")
@@ -92,12 +170,20 @@ def _term(e, env):
     if isinstance(e, ast.Call) and isinstance(e.func, ast.Name) and e.func.id in ("str", "repr") and len(e.args) == 1:
         x = _val(e.args[0], env)
         if isinstance(x, tuple):
-            return fstring_term(x[1], x[2])
+            return _single(fstring_term(x[1], x[2]))
         if x.sort() == z3.IntSort():
             return z3.IntToStr(x)
         if e.func.id == "str":
             return x
     raise ValueError("unsupported expression in __repr__: %s" % ast.dump(e)[:100])
+
+
+def _single(paths):
+    """a nested __repr__ with several paths is folded into an ITE (only the outermost is split)"""
+    t = paths[-1][1]
+    for g, term in reversed(paths[:-1]):
+        t = z3.If(g, term, t)
+    return t
 
 
 def _val(e, env):
@@ -125,17 +211,25 @@ def repr_queries(chk):
     t0 = time.time()
     for name, (cls, env, want) in specs.items():
         try:
-            impl = fstring_term(cls, env)
+            paths = fstring_term(cls, env)
         except Exception as e:
             # the body left the translatable fragment: decide by concrete evaluation is not this technique -> inconclusive,
             # but a body that is plainly wrong on a witness is still a reproducible violation
             _repr_concrete(chk, name, "translator: %s" % e)
             continue
-        s = z3.Solver()
-        s.set("timeout", 60000)
-        s.add(*rng)
-        s.add(impl != want)
-        r = str(s.check())
+        r = "unsat"
+        s = None
+        for guard, impl in paths:
+            s = z3.Solver()
+            s.set("timeout", 60000)
+            s.add(*rng)
+            s.add(guard, impl != want)
+            r1 = str(s.check())
+            if r1 == "sat":
+                r = "sat"
+                break
+            if r1 != "unsat":
+                r = r1
         if r == "unsat":
             chk.ev.coverage["queries"]["confirmed"] += 1
         elif r == "sat":
